@@ -210,18 +210,19 @@ def run(ctx):
     files = {}
     if q:
         plan = [
-            ("small22", ["c05-small", "letters=2", "rules=2", "maxlen=3"]),
-            ("random", ["c05-random", f"seed={seed}", "n=1500", "words=10"]),
-            ("corpus", ["c05-corpus", f"dir={corpus_dir()}", f"seed={seed}", "pairs=30", "walks=30", "batch=60"]),
+            # every second program of the small space (which half depends on the seed); thorough takes all
+            ("small22", ["c05-small", "letters=2", "rules=2", "maxlen=3", "stride=2", f"offset={seed % 2}"]),
+            ("random", ["c05-random", f"seed={seed}", "n=1200", "words=10"]),
+            ("corpus", ["c05-corpus", f"dir={corpus_dir()}", f"seed={seed}", "pairs=25", "walks=25", "batch=60"]),
             ("redirect", ["c05-redirect", f"seed={seed}", "n=120"]),
-            ("convert", ["c05-convert", f"dir={corpus_dir()}", f"seed={seed}", "pairs=20", "walks=25", "batch=60"]),
+            ("convert", ["c05-convert", f"dir={corpus_dir()}", f"seed={seed}", "pairs=15", "walks=20", "batch=60"]),
         ]
     else:
         plan = [
             ("small22", ["c05-small", "letters=2", "rules=2", "maxlen=4"]),
             ("small32", ["c05-small", "letters=3", "rules=2", "maxlen=3", "stride=12", f"offset={seed % 12}"]),
             ("small23", ["c05-small", "letters=2", "rules=3", "maxlen=3", "stride=24", f"offset={seed % 24}"]),
-            ("random", ["c05-random", f"seed={seed}", "n=12000", "words=12"]),
+            ("random", ["c05-random", f"seed={seed}", "n=10000", "words=12"]),
             ("corpus", ["c05-corpus", f"dir={corpus_dir()}", f"seed={seed}", "pairs=500", "walks=500", "batch=100"]),
             ("redirect", ["c05-redirect", f"seed={seed}", "n=1500"]),
             ("convert", ["c05-convert", f"dir={corpus_dir()}", f"seed={seed}", "pairs=300", "walks=300", "batch=100"]),
@@ -236,27 +237,32 @@ def run(ctx):
     mcw = 4
 
     def model(name, module, cfg, actions, workers, xmx="6g"):
-        return lambda: tlc_model(ctx, name, module, cfg, expect_actions=actions, workers=workers, xmx=xmx)
+        # TLC's -coverage doubles the run time of these models: the large configurations run without
+        # it, the vacuity guard (every action taken) runs on the same modules with MaxRules one smaller
+        return lambda: tlc_model(ctx, name, module, cfg, expect_actions=actions, workers=workers, xmx=xmx,
+                                 coverage=bool(actions))
 
     def neg(module, cfg, what):
         return lambda: tlc_expect_refuted(module, cfg, what, workers=2)
 
-    both = ["StepCursor", "StopDiverging"]
     if not q:
         # the large spaces first: they are the critical path of the thorough tier
-        jobs.append(("mc-3letters", model("LigKern.refinement.3letters", "MC_LigKern", "MC_LigKern_thorough.cfg", both, 8, "10g")))
-        jobs.append(("mc-3rules", model("LigKern.refinement.3rules", "MC_LigKern", "MC_LigKern_rules3.cfg", both, 8, "10g")))
+        jobs.append(("mc-3letters", model("LigKern.refinement.3letters", "MC_LigKern", "MC_LigKern_thorough.cfg", (), 8, "10g")))
+        jobs.append(("mc-3rules", model("LigKern.refinement.3rules", "MC_LigKern", "MC_LigKern_rules3.cfg", (), 8, "10g")))
         jobs.append(("mc-full", model("LigKern.refinement.divergent-runs-to-bound", "MC_LigKern", "MC_LigKern_full.cfg",
-                                      ["StepCursor"], mcw)))
-    jobs.append(("mc", model("LigKern.refinement", "MC_LigKern", "MC_LigKern.cfg", both, mcw)))
+                                      (), mcw)))
+    jobs.append(("mc", model("LigKern.refinement", "MC_LigKern", "MC_LigKern.cfg", (), 6 if q else mcw)))
     jobs.append(("mc-compile", model("LigKernCompile.confluence", "LigKernCompile",
-                                     "MC_LigKernCompile.cfg" if q else "MC_LigKernCompile_thorough.cfg",
-                                     ["Park", "Continue", "Complete"], 2 if q else 4)))
+                                     "MC_LigKernCompile.cfg" if q else "MC_LigKernCompile_thorough.cfg", (), 4)))
+    jobs.append(("mc-cov", model("LigKern.actions", "MC_LigKern", "MC_LigKern_cov.cfg",
+                                 ["Setup", "StepCursor", "StopDiverging"], 2)))
+    jobs.append(("mc-compile-cov", model("LigKernCompile.actions", "LigKernCompile", "MC_LigKernCompile_cov.cfg",
+                                         ["Park", "Continue", "Complete"], 2)))
     for b in NEGS:
         jobs.append((f"neg:{b}", neg("MC_LigKern", f"NEG_LigKern_{b}.cfg", b)))
     for b in NEGS_COMPILE:
         jobs.append((f"neg:{b}", neg("LigKernCompile", f"NEG_LigKernCompile_{b}.cfg", b)))
-    per_chunk = ({"small": 1300, "random": 260, "corpus": 13, "redirect": 200, "convert": 8} if q else
+    per_chunk = ({"small": 800, "random": 400, "corpus": 17, "redirect": 200, "convert": 11} if q else
                  {"small": 2500, "random": 1500, "corpus": 40, "redirect": 800, "convert": 30})
     for b in batches:
         size = per_chunk[re.sub(r"\d+$", "", b.name)]
